@@ -156,6 +156,7 @@ func (e *Emitter) Merge(o *Emitter) {
 	for k, v := range o.Stats {
 		e.Stats[k] += v
 	}
+	e.Cases += o.Cases
 }
 
 // captureEmitter returns an emitter that records lines in memory.
